@@ -194,7 +194,7 @@ fn guarded(d: &Def) -> bool {
     false
 }
 
-fn alphabet_for(d: &Def) -> Vec<Tok> {
+pub fn alphabet_for(d: &Def) -> Vec<Tok> {
     let mut a = vec![];
     if d.prim == Prim::Pos {
         a.push(Tok::s("7"));
@@ -399,7 +399,7 @@ pub struct GroupDef {
     pub len: usize,
 }
 
-fn group_opts(g: &GroupDef) -> Opts {
+pub fn group_opts(g: &GroupDef) -> Opts {
     let min = P::arg(Names::long("min"), Ty::U32);
     let max = P::arg(Names::long("max"), Ty::U32);
     let grp = if g.adjacent { P::Adj(vec![P::ReqFlag(Names::long("range")), min, max]) } else { P::Seq(vec![min, max]) };
